@@ -334,6 +334,96 @@ theorem Lines.ne_nil {ls : List Line} (h : Lines ls) : ∀ l ∈ ls, l ≠ [] :=
       · simp
       · exact ih hrest x hx
 
+/-! ### every file has exactly one header/records reading -/
+
+/-- the canonical reading of ANY list of lines as header + records: a line with the `(hex)`
+    marker starts a record, every other line belongs to what precedes it -/
+def decompose : List Line → List Line × List (List Line)
+  | [] => ([], [])
+  | l :: rest =>
+    let d := decompose rest
+    if hasHex l then ([], (l :: d.1) :: d.2) else (l :: d.1, d.2)
+
+theorem decompose_flatten (ls : List Line) : (decompose ls).1 ++ (decompose ls).2.flatten = ls := by
+  induction ls with
+  | nil => rfl
+  | cons l rest ih =>
+    simp only [decompose]
+    split
+    · simp only [List.nil_append, List.flatten_cons, List.cons_append]
+      rw [ih]
+    · simp only [List.cons_append]
+      rw [ih]
+
+theorem decompose_header (ls : List Line) : ∀ l ∈ (decompose ls).1, hasHex l = false ∧ l ∈ ls := by
+  induction ls with
+  | nil => intro l hl; cases hl
+  | cons a rest ih =>
+    intro l hl
+    simp only [decompose] at hl
+    split at hl
+    · cases hl
+    · rename_i hh
+      rcases List.mem_cons.mp hl with rfl | h'
+      · exact ⟨by simpa using hh, by simp⟩
+      · exact ⟨(ih l h').1, by simp [(ih l h').2]⟩
+
+theorem decompose_records (ls : List Line) : ∀ r ∈ (decompose ls).2,
+    ∃ h t, r = h :: t ∧ hasHex h = true ∧ (∀ l ∈ t, hasHex l = false) ∧ ∀ l ∈ r, l ∈ ls := by
+  induction ls with
+  | nil => intro r hr; cases hr
+  | cons a rest ih =>
+    intro r hr
+    simp only [decompose] at hr
+    split at hr
+    · rename_i hh
+      rcases List.mem_cons.mp hr with rfl | h'
+      · refine ⟨a, (decompose rest).1, rfl, hh, fun l hl => (decompose_header rest l hl).1, ?_⟩
+        intro l hl
+        rcases List.mem_cons.mp hl with rfl | h2
+        · simp
+        · simp [(decompose_header rest l h2).2]
+      · obtain ⟨h, t, e, h1, h2, h3⟩ := ih r h'
+        exact ⟨h, t, e, h1, h2, fun l hl => by simp [h3 l hl]⟩
+    · obtain ⟨h, t, e, h1, h2, h3⟩ := ih r hr
+      exact ⟨h, t, e, h1, h2, fun l hl => by simp [h3 l hl]⟩
+
+theorem decompose_nil_iff (ls : List Line) : (decompose ls).2 = [] ↔ ∀ l ∈ ls, hasHex l = false := by
+  induction ls with
+  | nil => simp [decompose]
+  | cons a rest ih =>
+    simp only [decompose]
+    split
+    · rename_i hh
+      simp only [reduceCtorEq, List.mem_cons, forall_eq_or_imp, false_iff, not_and]
+      intro h; rw [hh] at h; cases h
+    · rename_i hh
+      simp only [List.mem_cons, forall_eq_or_imp]
+      rw [ih]
+      simp [hh]
+
+theorem linesAux_ne_nil (bs : List Nat) : ∀ acc, ∀ l ∈ linesAux bs acc, l ≠ [] := by
+  induction bs with
+  | nil =>
+    intro acc l hl
+    simp only [linesAux] at hl
+    split at hl
+    · cases hl
+    · simp only [List.mem_singleton] at hl
+      subst hl
+      cases acc <;> simp_all
+  | cons b t ih =>
+    intro acc l hl
+    simp only [linesAux] at hl
+    split at hl
+    · rcases List.mem_cons.mp hl with rfl | h'
+      · simp
+      · exact ih [] l h'
+    · exact ih _ l hl
+
+/-- `readline()` never returns an empty line before EOF -/
+theorem pyLines_ne_nil (bs : List Nat) : ∀ l ∈ pyLines bs, l ≠ [] := linesAux_ne_nil bs []
+
 /-! ### small generic helpers used by Props/C19 -/
 
 theorem div_eq_iff_block (a v B : Nat) (hB : 0 < B) : a / B = v / B ↔ v / B * B ≤ a ∧ a ≤ v / B * B + (B - 1) := by
